@@ -160,9 +160,6 @@ Qed.
 (* ---- matching strings start with the fixed prefix ---- *)
 Definition nrm (ci : bool) (c : N) : N := if ci then lower c else c.
 
-Lemma lower_str_map ci s : lower_str ci s = map (nrm ci) s.
-Proof. destruct ci; cbn; [reflexivity|]. symmetry. apply map_id. Qed.
-
 Lemma ceq_nrm ci x c : ceq ci x c = true <-> nrm ci x = nrm ci c.
 Proof. destruct ci; cbn; apply N.eqb_eq. Qed.
 
@@ -183,14 +180,22 @@ Proof.
     + exists [], (s1 ++ s2). repeat split; auto. discriminate.
 Qed.
 
+(* key lemma: what the regex matcher takes for equal, the pruning takes for equal as well *)
+Lemma ceq_peq ci x c : ceq ci x c = true -> peq ci x c = true.
+Proof.
+  unfold ceq, peq. destruct ci; intros H.
+  - rewrite H. cbn [andb orb]. apply orb_true_r.
+  - rewrite H. reflexivity.
+Qed.
+
 Lemma zip_prefix ci : forall F p1 p2 q r,
   map (nrm ci) p1 = map (nrm ci) F -> p1 ++ p2 = q ++ r ->
-  zip_all_eq (map (nrm ci) F) (map (nrm ci) q) = true.
+  zip_all_peq ci F q = true.
 Proof.
   induction F as [|x F IH]; intros p1 p2 q r Hm E; [reflexivity|].
   destruct p1 as [|c p1]; [discriminate|]. cbn [map] in Hm. injection Hm as Hc Hm.
   destruct q as [|d q]; [reflexivity|]. cbn [app] in E. injection E as -> E.
-  cbn [map zip_all_eq]. rewrite Hc, N.eqb_refl. cbn [andb]. eapply IH; eauto.
+  cbn [zip_all_peq]. rewrite (ceq_peq ci x d) by (apply ceq_nrm; auto). cbn [andb]. eapply IH; eauto.
 Qed.
 
 (* C16_partial_conservative: the partial match accepts EVERY prefix of a matching string *)
@@ -199,8 +204,8 @@ Theorem partial_conservative ci g p q r :
 Proof.
   intros H E. unfold pat_matches_partially. rewrite pat_fixed_spec. cbn [pat_ci].
   apply gmatch_lit_prefix in H as (p1 & p2 & Ep & Hm & Hall).
-  unfold partial_match. cbn [fst snd]. rewrite !lower_str_map.
-  assert (Z : zip_all_eq (map (nrm ci) (lit_prefix g)) (map (nrm ci) q) = true).
+  unfold partial_match. cbn [fst snd].
+  assert (Z : zip_all_peq ci (lit_prefix g) q = true).
   { apply (zip_prefix ci (lit_prefix g) p1 p2 q r); [exact Hm|congruence]. }
   destruct (all_lit g); auto.
   rewrite (Hall eq_refl), app_nil_r in Ep. subst p.
